@@ -43,12 +43,17 @@ def get_func(ctx, name):
     raise AnalysisError('anchor vanished: sbmlutil:%s' % name)
 
 
-def build(f, ptype, stochastic, counts):
+def build(f, ptype, stochastic, counts, delay=None, values=None, tracked=('ratestring',)):
+    """Evaluate add_reaction on a sample reaction of the given type.  `values`: concrete values for propensity_params[key]
+    (default: the named hole P_<key>); `delay`: the delay dictionary handed in.  The string handed to setAnnotation is kept
+    in `ex.annotation`."""
     a = [x.arg for x in f.args.args]
     inputs = [Hole('S%d' % i) for i in range(len(counts))]
 
     def hole_sub(n, ex):
         if isinstance(n.value, ast.Name) and n.value.id == 'propensity_params' and isinstance(n.slice, ast.Constant):
+            if values is not None and n.slice.value in values:
+                return values[n.slice.value]
             return Hole('P_%s' % n.slice.value)
         return None
 
@@ -57,11 +62,16 @@ def build(f, ptype, stochastic, counts):
         if t.endswith('.getId') and isinstance(n.func.value, ast.Call) and src(n.func.value.func) == 'getSpeciesByName':
             v = ex.ev(n.func.value.args[1])
             return v if isinstance(v, Hole) else None
+        if t.endswith('.setAnnotation') and len(n.args) == 1:
+            ex.annotation = ex.ev(n.args[0])
+        if isinstance(n.func, ast.Attribute) and n.func.attr in ('getListOfParameters', 'getListOfSpecies') and not n.args:
+            return []       # the sample document: the reaction's own species and parameters are holes, nothing else is in it
         return None
     env = {'propensity_type': ptype, 'stochastic': stochastic, 'inputs': inputs, 'input_coefs': list(counts),
-           'outputs': [], 'output_coefs': [], 'delay_annotation_dict': None}
-    ex = templates.StrExec(env, tracked={'ratestring'}, hole_for_subscript=hole_sub, call_hook=call,
-                           frozen={'inputs', 'input_coefs', 'outputs', 'output_coefs', 'propensity_type', 'stochastic'})
+           'outputs': [], 'output_coefs': [], 'delay_annotation_dict': delay}
+    ex = templates.StrExec(env, tracked=set(tracked), hole_for_subscript=hole_sub, call_hook=call,
+                           frozen={'inputs', 'input_coefs', 'outputs', 'output_coefs', 'propensity_type', 'stochastic', 'delay_annotation_dict'})
+    ex.annotation = None
     ex.run(f.body)
     if ex.aborted:
         raise AnalysisError('add_reaction raises for type %s: %s' % (ptype, ex.aborted))
@@ -425,6 +435,14 @@ def check(ctx):
             ctx.ob('R14.5-mode-forwarding', key, ok, where, what, detail)
             n += 1
     ctx.floor('R14.5-mode-forwarding', 3)
+    # the law is "evaluated over the exported species and parameters": the value a parameter has in the model is the number written
+    # for it (C12 R12.3 add_parameter/value) - re-emitted here
+    sub = SubCtx(ctx)
+    c12.check_writer_values(sub)
+    for rule, key, ok, where, what, detail in sub.got:
+        if rule == 'R12.3-forwarding' and key == 'add_parameter/value':
+            ctx.ob('R14.7-parameter-values', key, ok, where, what, detail)
+    ctx.floor('R14.7-parameter-values', 1)
     ctx.floor('R14.1-identifiers', 6)
     ctx.floor('R14.2-value', 7)
     ctx.floor('R14.4-modifiers', 5)
